@@ -283,7 +283,7 @@ pub open spec fn ext_spec(n: Seq<u8>) -> Option<Seq<u8>> {
 }
 #[verifier::external_body] pub struct OsStrV { x: usize }
 pub uninterp spec fn os_bytes(s: &OsStrV) -> Seq<u8>;
-#[verifier::external_body] pub fn os_path_new(n: &OsName) -> (r: &OsName) ensures name_bytes(r) == name_bytes(n) { unimplemented!() }
+#[verifier::external_body] pub fn os_path_new(n: &OsName) -> (r: OsName) ensures name_bytes(&r) == name_bytes(n) { unimplemented!() }       // owned: a `let` of the path (an inlined helper's parameter) outlives its argument
 impl OsName {
     #[verifier::external_body] pub fn extension(&self) -> (r: Option<&OsStrV>)
         ensures (r is Some) == (ext_spec(name_bytes(self)) is Some), r is Some ==> os_bytes(r->Some_0) == ext_spec(name_bytes(self))->Some_0 { unimplemented!() }
